@@ -192,7 +192,7 @@ impl<const N: u32> PxE1<{ N }> {
                 }
                 frac &= Self::mask();
 
-                exp <<= 29 - reg_len;
+                exp = if reg_len <= 29 { exp << (29 - reg_len) } else { exp >> (reg_len - 29) };
                 let mut u_z = Self::pack_to_ui(regime, exp as u32, frac);
 
                 //n+1 frac bit is 1. Need to check if another bit is 1 too if not round to even
@@ -315,7 +315,7 @@ impl<const N: u32> PxE1<{ N }> {
                 }
                 frac &= Self::mask();
 
-                exp <<= 29 - reg_len;
+                exp = if reg_len <= 29 { exp << (29 - reg_len) } else { exp >> (reg_len - 29) };
                 let mut u_z = Self::pack_to_ui(regime, exp as u32, frac);
 
                 //n+1 frac bit is 1. Need to check if another bit is 1 too if not round to even
@@ -425,7 +425,7 @@ impl<const N: u32> ops::Mul for PxE1<{ N }> {
                     0
                 };
 
-                exp <<= 29 - reg_len;
+                exp = if reg_len <= 29 { exp << (29 - reg_len) } else { exp >> (reg_len - 29) };
                 let mut u_z = Self::pack_to_ui(regime, exp as u32, frac);
 
                 if bit_n_plus_one {
@@ -535,7 +535,7 @@ impl<const N: u32> ops::Div for PxE1<{ N }> {
                     frac = 0;
                 }
 
-                exp <<= 29 - reg_len;
+                exp = if reg_len <= 29 { exp << (29 - reg_len) } else { exp >> (reg_len - 29) };
                 let mut u_z = Self::pack_to_ui(regime, exp as u32, frac);
 
                 if bit_n_plus_one {
